@@ -46,7 +46,10 @@ class ScopeMetrics:
             else f"[{self.trace_id}] [{self.identifier}]"
         )
         self._logger: Logger = logger or getLogger(name=scope)
-        self._parent: Self | None = parent if parent else None
+        # a completed scope no longer tracks nested scopes - detach instead of breaking its completion
+        self._parent: Self | None = (
+            parent if parent is not None and not parent._completed.done() else None  # pyright: ignore[reportPrivateUsage]
+        )
         self._metrics: dict[type[State], State] = {}
         self._nested: list[ScopeMetrics] = []
         self._timestamp: float = monotonic()
@@ -54,7 +57,7 @@ class ScopeMetrics:
         self._loop: AbstractEventLoop = get_event_loop()
         self._completed: Future[float] = self._loop.create_future()
 
-        if parent := parent:
+        if parent := self._parent:
             parent._nested.append(self)
 
         freeze(self)
